@@ -453,6 +453,7 @@ def run_replay(ck, rp):
         for attempt in range(4):
             path, st = ck.run_worker(rp["driver"], args, out_name="replay.ndjson", seed=rp["seed"], race=True)
             if st.get("worker_aborts") or any(json.loads(x).get("got") != json.loads(x).get("solo") or json.loads(x).get("outcome") != "returned"
+                                              or json.loads(x).get("after", json.loads(x).get("solo")) != json.loads(x).get("solo")
                                               for x in open(path) if '"conc"' in x):
                 break
     elif rp.get("worker"):
